@@ -236,5 +236,32 @@ func VerifC18(v *verifrt.T) {
 		seen = len(got)
 	}
 	v.Reach("history-done")
+	// whatever the history was, a status request on every channel now lists exactly the
+	// connections that still hold a matching subscription
+	for _, ch := range c18chans {
+		req := presence.Request{Key: key, Channel: ch, Status: true}
+		var payload []byte
+		if v.Symbolic() {
+			c18req = req
+		} else {
+			payload, _ = json.Marshal(&req)
+		}
+		resp, ok := svc.presence.OnRequest(conns[w], payload)
+		v.Assert(ok, "C18.env.presence-request-accepted")
+		r := resp.(*presence.Response)
+		want := map[string]string{}
+		for x := 0; x < 2; x++ {
+			for sub := range held[x] {
+				if c18under(ch, sub) {
+					want[conns[x].ID()] = names[x]
+				}
+			}
+		}
+		v.Assert(len(r.Who) == len(want), "C18.status.exactly-the-receivers")
+		for _, info := range r.Who {
+			u, ok := want[info.ID]
+			v.Assert(ok && u == info.Username, "C18.status.ids-and-usernames")
+		}
+	}
 	v.Observe("notes", uint64(seen))
 }
